@@ -180,13 +180,20 @@ def one_history(ctx, r, nops, lines, expect, speclines, meta):
                 lines.append('pop'); hist.append('v._pop()'); sok = ref.pop(); v._pop()
             elif k in ('relabel', 'relabel_absent'):
                 cur = list(v)
-                pool = cur if k == 'relabel' or not cur else cur + ['nope', 13]
+                pool = cur if k == 'relabel' or not cur else cur + ['nope', 13] + [x for x in ALPHA if x not in cur]
                 if not pool:
                     m = {}
                 else:
                     ks = r.sample(pool, r.randint(1, min(len(pool), 4)))
                     mode = r.random()
-                    if mode < .25 and len(ks) > 1:       # cyclic / swapping
+                    if k == 'relabel_absent' and mode < .5:
+                        # chains old -> x -> y ... through labels that may or may not be variables, in random key order
+                        chain = r.sample(ALPHA + EXTRA_NEW, r.randint(2, 4))
+                        m = {chain[i]: chain[i + 1] for i in range(len(chain) - 1)}
+                        if r.random() < .3:
+                            m[chain[-1]] = chain[0]
+                        items = list(m.items()); r.shuffle(items); m = dict(items)
+                    elif mode < .25 and len(ks) > 1:       # cyclic / swapping
                         m = {ks[i]: ks[(i + 1) % len(ks)] for i in range(len(ks))}
                     elif mode < .45:                      # to own index / other index
                         m = {x: r.choice([cur.index(x) if x in cur else 0, len(cur), r.randrange(len(cur) + 1)]) for x in ks}
